@@ -9,9 +9,9 @@ _units = [{"name": "oracle", "src": ["c07_selftest.cpp"], "variant": "asan",
            "configs": {"oracle_doc": {"quick": 3, "thorough": 3}, "oracle_insonly": {"quick": 800, "thorough": 20000},
                        "oracle_random": {"quick": 800, "thorough": 20000}}, "chunk": 100}]
 for _ct in _CT:
-    _cfg = {"mix_" + _ct: {"quick": 1500, "thorough": 80000}, "long_" + _ct: {"quick": 150, "thorough": 8000},
-            "churn_" + _ct: {"quick": 1000, "thorough": 50000},
-            "insonly_" + _ct: {"quick": 200, "thorough": 10000}}
+    _cfg = {"mix_" + _ct: {"quick": 1500, "thorough": 50000}, "long_" + _ct: {"quick": 150, "thorough": 5000},
+            "churn_" + _ct: {"quick": 800, "thorough": 25000},
+            "insonly_" + _ct: {"quick": 200, "thorough": 5000}}
     if _ct == "NAIVE_VECTOR":
         _cfg["exh3_" + _ct] = {"quick": _EXH_PREFIXES["quick"], "thorough": _EXH_PREFIXES["thorough"]}
     else:
@@ -22,10 +22,29 @@ for _ct in _CT:
 _units.append({"name": "g_naive_vector", "src": ["c07_main.cpp"], "variant": "gasan", "defs": ["C07_CT=NAIVE_VECTOR"], "tiers": ["thorough"],
                "configs": {"mix_NAIVE_VECTOR": {"thorough": 30000}}, "chunk": 50})
 
+# coverage floors: about half of what a normal quick run measures (seed 1: see evidence/C07.json); thorough = 12 x quick
+# (thorough runs 25-33 x the quick case counts), the exhaustive sub-space exactly
+_FLOORS_Q = {"arrow.fwd_birth": 100000, "arrow.fwd_death": 75000, "arrow.bwd_death": 45000, "arrow.bwd_birth": 40000,
+             "op.identity": 19000, "op.reinsert": 50000, "op.remove.dim1": 45000, "op.remove.dim2": 12000, "op.remove.dim3": 1800,
+             "seq.removals_ge3": 8500, "seq.decreasing_values": 2200,
+             "interval.dim1": 35000, "interval.dim2": 5500, "interval.dim3": 400, "interval.long_finite": 28000, "interval.open": 25000,
+             "universe.cubical": 3000, "universe.polygonal": 1200, "universe.cw": 550, "universe.simplicial": 6000,
+             "fs.skipped_insertion": 19000, "fs.skipped_removal": 10000, "fs.dimmax.none": 11000, "fs.dimmax.1": 3300, "fs.dimmax.3": 2200,
+             "fs.short_dropped": 450000, "fs.zero_length_dropped": 1200000, "fz.zero_length_dropped": 45000, "fz.positive_length": 80000,
+             "cmp.zp.streamed": 400000, "cmp.zp.open": 400000, "cmp.fz.streamed": 300000, "cmp.fs.index_diagram": 600000,
+             "cmp.fs.diagram": 600000, "cmp.fs.value_from_index": 7000000, "cmp.insertion_only.zp_reduce": 800,
+             "selftest.documented": 2, "selftest.insonly": 400, "selftest.random": 400,
+             "_distinct_nontrivial": 8000}
+_FLOORS_T = {k: 12 * v for k, v in _FLOORS_Q.items() if not k.startswith("selftest.")}
+_FLOORS_T.update({"selftest.documented": 2, "selftest.insonly": 10000, "selftest.random": 10000})
+_FLOORS_Q["exh.sequences"] = _EXH_SEQUENCES["quick"]
+_FLOORS_T["exh.sequences"] = _EXH_SEQUENCES["thorough"] * len(_CT)
+
 SPEC = {
     "property": "C07",
-    "rule": "one case = one model-generated zigzag history (mix: 5-28 operations, long: 29-60, insonly: 4-34 insertions and identities) "
-            "over a universe of <= 41 cells: all simplices of dimension <= 1..3 on 3-6 vertices, 2x2 / 3x1 square grids, the solid cube, "
+    "rule": "one case = one model-generated zigzag history (mix: 5-28 operations, long: 29-60, churn: 20-48 operations that first insert most "
+            "vertices of a graph-like universe and then insert / remove edges and 2-cells around a plateau so that many classes of one "
+            "dimension are alive at once, insonly: 4-34 insertions and identities) over a universe of <= 41 cells: all simplices of dimension <= 1..3 on 3-7 vertices, 2x2 / 3x1 square grids, the solid cube, "
             "polygonal 'pillows' (k-gons glued on a k-cycle with 3-cells between them) and a small non-regular CW complex (loops with empty "
             "Z_2 boundary, a bigon, 2-cells whose attaching map cancels mod 2). Operations: insert a cell whose faces are present, remove a "
             "cell nothing contains, identity; phases of growth / plateau / shrinking, remove-then-reinsert bias, bias towards removing a "
@@ -54,12 +73,7 @@ SPEC = {
     ],
     "units": _units,
     "timeout": {"quick": 600, "thorough": 5400},     # per-shard watchdog (a normal quick shard takes < 60 s)
-    "floors": {
-        "quick": {"arrow.fwd_birth": 1000, "arrow.fwd_death": 1000, "arrow.bwd_death": 1000, "arrow.bwd_birth": 1000,
-                  "exh.sequences": _EXH_SEQUENCES["quick"], "selftest.documented": 2},
-        "thorough": {"arrow.fwd_birth": 50000, "arrow.fwd_death": 50000, "arrow.bwd_death": 50000, "arrow.bwd_birth": 50000,
-                     "exh.sequences": _EXH_SEQUENCES["thorough"] * len(_CT), "selftest.documented": 2},
-    },
+    "floors": {"quick": dict(_FLOORS_Q), "thorough": dict(_FLOORS_T)},
     "exhaustive": {"quick": False, "thorough": False},
     "exhaustive_note": "the sub-space 'all valid insert/remove/identity sequences of length <= 7 (quick, default column type) / <= 9 (thorough, every "
                        "column type) over the 7 cells of the full triangle' is enumerated completely (every prefix of every sequence is checked); "
